@@ -556,6 +556,21 @@ def run(ctx: Ctx) -> int:
             ctx.oblige("C03.R5", ok, c, why if ok else f"a loader failure here is not anticipated: {why}", fn=fn)
     ctx.floor("C03.R5-sites", n_r5, 10)
 
+    # ---------------- R7: text from the user is data, never a %-format string ---------------------------------------
+    # `f"...{message}..." % args` / `("..." + message) % args` interpret whatever `message` contains: a failure message
+    # with a `%` in it (--rate=50%) raises TypeError / ValueError inside the error reporting itself
+    n_fmt = 0
+    for fq, fn in list(repo.all_funcs()):
+        for n_ in walk_local(fn):
+            if isinstance(n_, ast.BinOp) and isinstance(n_.op, ast.Mod) and isinstance(n_.left, (ast.JoinedStr, ast.BinOp, ast.Constant)):
+                if isinstance(n_.left, ast.Constant) and not isinstance(n_.left.value, str):
+                    continue
+                n_fmt += 1
+                dyn = [x for x in ast.walk(n_.left) if isinstance(x, ast.FormattedValue)] if isinstance(n_.left, ast.JoinedStr) else ([x for x in ast.walk(n_.left) if isinstance(x, (ast.Name, ast.Attribute, ast.Call))] if isinstance(n_.left, ast.BinOp) and isinstance(n_.left.op, ast.Add) else [])
+                ok = not dyn
+                ctx.oblige("C03.R7", ok, n_, "the %-format template is a literal" if ok else f"`{src(n_, 70)}` builds its %-format template from run-time text ({ast.unparse(dyn[0])[:30]}): a `%` in that text (a value like 50%) makes the formatting itself raise TypeError / ValueError - the error report turns into a foreign exception", fn=fn)
+    ctx.floor("C03.R7-percent-formats", n_fmt, 1)
+
     # ---------------- R6: exception flow for two families of user-data failures --------------------------
     # (E6, path-precise: a leak is an origin reachable from a parse entry along call sites none of which lies
     #  under a handler for the exception; every report carries the witness chain)
